@@ -221,7 +221,7 @@ def explore(lib, acc, r, kind, version, label, raw, tier, budget=None):
         want_verdict = kind == 'sig' and cls == 'ins-nc' and not (m.in_meta or m.in_pubdata) and exp == K.ACCEPT and domain_skip is None
         q = lib.run(kind, version, mraw, verify=want_verdict)
         got = q.rc == 0
-        r.observe((entry, cls.split(':')[0] if cls.startswith('lex') else cls, m.path, m.note if cls.startswith(('retag', 'ins')) else cls, exp if domain_skip is None else 'skip', got))
+        r.observe((entry, cls.split(':')[0] if cls.startswith('lex') else cls, m.path, m.note if cls.startswith(('retag', 'ins', 'move')) else cls, exp if domain_skip is None else 'skip', got))
         if q.get('objonerr') or q.get('nullonok'):
             r.viol('%s:object-and-status-disagree' % entry, 'parser returned %s' % dict(q), lib.command(kind, version, mraw))
         if domain_skip is not None:
@@ -309,7 +309,7 @@ def worker(job, r):
 REQUIRED_REJECT = ['missing', 'repeat', 'exclusive', 'group-empty', 'unknown-critical', 'position:not-first', 'position:after-last', 'position:order', 'tlv:children-do-not-tile', 'top-tag',
                    'int:too-long', 'int:leading-zero', 'utf8:no-terminator', 'utf8:embedded-nul', 'utf8:stray-continuation', 'utf8:truncated-sequence', 'utf8:lead-f8-ff', 'utf8:empty-not-allowed',
                    'imprint:empty', 'imprint:unknown-algorithm', 'imprint:length', 'legacy:length', 'legacy:header', 'legacy:name-length', 'legacy:padding']
-REQUIRED_ACCEPT = ['delete', 'dup', 'swap', 'retag-known', 'retag-unknown-nc', 'ins-nc', 'long-header', 'resize+1', 'resize-1', 'empty', 'lex:int', 'lex:time', 'lex:utf8', 'lex:utf8nz', 'lex:imprint',
+REQUIRED_ACCEPT = ['delete', 'dup', 'swap', 'move', 'ins-known', 'retag-known', 'retag-unknown-nc', 'ins-nc', 'long-header', 'resize+1', 'resize-1', 'empty', 'lex:int', 'lex:time', 'lex:utf8', 'lex:utf8nz', 'lex:imprint',
                    'lex:legacy', 'lex:octets']
 
 
@@ -325,15 +325,15 @@ def run(ctx):
     world = dict(certs=certs, p7=p7)
     der_ok = [c.der for c in certs] + [p7]
     objs = []
-    nsig = 10 if quick else 150
+    nsig = 32 if quick else 240
     for i in range(nsig):
         want, kw = SIG_PLAN[i % len(SIG_PLAN)]
         big = (not quick) and i % 5 == 4
-        s = make_signature(rng, want, 7 if quick else (40 if big else 12), small_time=not big, **kw)
+        s = make_signature(rng, want, 9 if quick else (40 if big else 14), small_time=not big, **kw)
         objs.append(('sig', 0, '+'.join(sorted(sig_features(s))) + ('+cal' if s.cal is not None else '') + ('+pub' if s.pub is not None else '') + ('+auth' if s.calauth is not None else '') + ('+rfc3161' if s.rfc is not None else ''), s.enc()))
-    for rep in range(1 if quick else 12):
+    for rep in range(2 if quick else 16):
         objs += make_pdus(rng, ctx.tier if rep == 0 else 'quick')
-    for i in range(1 if quick else 6):
+    for i in range(2 if quick else 8):
         objs.append(('pubfile', 0, 'file', make_pubfile(rng, world, 2 if quick else 2 + i)))
     # one job per object (sizes differ a lot); big ones first
     objs.sort(key=lambda o: -len(o[3]))
